@@ -34,7 +34,7 @@ def handlers : List (String × (List String → List String → Option Verdict))
   ("wr", Driver.Wild.wr), ("wrerr", Driver.Wild.wrerr),
   ("cfg", Driver.Config.cfg), ("fuzz", Driver.Config.fuzz),
   ("ra1", Driver.Config.ra1), ("ra3", Driver.Config.ra3), ("ra4", Driver.Config.ra4),
-  ("ws", Driver.C19.ws), ("wsu", Driver.C19.wsu),
+  ("ws", Driver.C19.ws), ("wsu", Driver.C19.wsu), ("wsc", Driver.C19.wsc),
   ("vr", Driver.C12.vr),
   ("mon", Driver.C18.mon),
   ("sch6", Driver.Sched.sch6), ("sch7", Driver.Sched.sch7),
